@@ -180,6 +180,13 @@ class NativeCheck:
                 return "pre-false", None
         except Exception as e:  # precondition text itself failed on this input (e.g. index error): not admissible
             return "pre-false", f"requires raised {e!r}"
+        dyn = c.hints.get("dynamic_class")
+        if dyn is not None:
+            try:
+                if not self.call_clause(dyn, args):
+                    return "pre-false", None     # the body under test never runs for such a receiver
+            except Exception:
+                return "pre-false", None
         old = SimpleNamespace(**copy.deepcopy(args))
         call_args = dict(args)
         try:
